@@ -228,6 +228,17 @@ KANI_UNITS["C05"] = dict(
                  "total_runs_dropped / total_runs_evicted < u64::MAX"],
 )
 
+KANI_UNITS["C03"] = dict(
+    prop="C03", crate="varpulis-runtime",
+    appends=[("crates/varpulis-runtime/src/sase.rs", "__vpv_c03", "contracts/kani/c03.rs")],
+    grade="K-bounded(predicate trees of depth <= 3 over 1-character aliases)", level="other", timeout=3000, harness_timeout=600, jobs=8,
+    functions=["varpulis-runtime/src/sase.rs: classify_predicate (Compare, CompareRef, And, Or, Not arms)"],
+    explanation=("classify_predicate decides WHICH Kleene filters are enumerated over subsets: cells over every leaf kind (constant comparison, comparison with the Kleene alias itself, "
+                 "comparison with another alias; alias characters symbolic) under Not / And / Or show it answers Inconsistent exactly when the predicate contains a self-reference. "
+                 "Predicate::Expr leaves (expr_references_alias) are not covered."),
+    assumptions=["bounded predicate shapes; Predicate::Expr leaves not covered"],
+)
+
 
 def write_undecided(prop, tier, reason, wall):
     u = KANI_UNITS.get(prop) or VERUS_UNITS.get(prop) or {}
@@ -287,6 +298,23 @@ VERUS_UNITS["C06"] = _zdd_unit("C06",
 
 def run(prop, tier, dev=False, only=None):
     t0 = time.time()
+    if prop in KANI_UNITS and prop in VERUS_UNITS:
+        # composite unit: Verus obligations + Kani cells decide the property together
+        import kani_unit, verus_unit
+        vo, vkw = verus_unit.run_unit(VERUS_UNITS[prop], tier, dev=dev, only=only)
+        u = KANI_UNITS[prop]
+        ko, meta = kani_unit.run_unit(u, tier=tier, dev=dev, only=only)
+        vkw["checker_cmd"] = vkw["checker_cmd"] + "   AND   " + meta["kani_cmd"]
+        vkw["trusted_base"] = vkw["trusted_base"] + KANI_TRUST
+        vkw["assumptions"] = vkw["assumptions"] + u["assumptions"]
+        vkw["functions"] = vkw["functions"] + u["functions"]
+        vkw["explanation"] = vkw["explanation"] + "  ||  KANI PART: " + u["explanation"]
+        vkw["extra"].update(appended_modules=meta["appended"], kani_wall_s=meta.get("kani_wall_s"),
+                            bounded_obligations=[o.name for o in ko if not o.grade.startswith("K-complete")])
+        vkw["wall_s"] = time.time() - t0
+        if vkw["level"] == "proof" and any(not o.grade.startswith("K-complete") for o in ko):
+            vkw["level"] = "other"
+        return vpv.finish(prop, tier, vo + ko, **vkw)
     if prop in KANI_UNITS:
         import kani_unit
         u = KANI_UNITS[prop]
